@@ -452,10 +452,18 @@ class Session:
       pass
     return {'body': outs}
 
-  def op_register_class_with_methods(self, op):
-    """A class whose method(s) were registered with @gin.register inside the class body."""
+  def op_register_class_with_methods(self, op, phase=None):
+    """A class whose method(s) were registered with @gin.register inside the class body.
+
+    phase 'body': only the class statement runs (its methods get registered as free-standing functions);
+    phase 'class': the class made earlier is registered; None: both at once."""
     gin = self.gin
     leaf = op['name']
+    if phase == 'class':
+      cls = self.pending_classes.pop(op['obj'])
+      returned = gin.external_configurable(cls) if op['_api'] == 'external' else gin.register(cls)
+      self.entries[op['obj']] = Entry(op['obj'], cls, returned, op['_api'], 'init', op['_selector'])
+      return
     g = {'__name__': op['_pymodule'], 'gin': gin, '_rec': self._rec}
     msrc = ''
     for m in op['_method_ops']:
@@ -481,6 +489,11 @@ class Session:
     cls = g[leaf]
     for m in op['_method_ops']:
       self.entries[m['obj']] = Entry(m['obj'], getattr(cls, m['name']), None, 'method', 'fn', m['_selector'])
+    if phase == 'body':
+      if not hasattr(self, 'pending_classes'):
+        self.pending_classes = {}
+      self.pending_classes[op['obj']] = cls
+      return
     returned = gin.external_configurable(cls) if op['_api'] == 'external' else gin.register(cls)
     self.entries[op['obj']] = Entry(op['obj'], cls, returned, op['_api'], 'init', op['_selector'])
 
@@ -701,9 +714,16 @@ class Session:
     name = op['op']
     try:
       if name == 'register':
-        if op.get('_skip_impl'):
+        if op.get('_split_class') is not None:
+          # the class statement runs here (registering this method as a function of its own), the class itself is
+          # registered by its own operation later on
+          r = self.op_register_class_with_methods(op['_split_class'], phase='body')
+        elif op.get('_skip_impl'):
           return {'ok': None}
-        r = self.op_register_class_with_methods(op) if op.get('_method_ops') else self.op_register(op)
+        elif op.get('_method_ops') and op.get('_split'):
+          r = self.op_register_class_with_methods(op, phase='class')
+        else:
+          r = self.op_register_class_with_methods(op) if op.get('_method_ops') else self.op_register(op)
       elif name == 'hook':
         r = self.op_hook(op)
       elif name == 'finalize':
@@ -831,7 +851,7 @@ def compare(case, impl, model):
   if b is None:
     return f'driver error: {model}'
   for k, (x, y) in enumerate(zip(a, b)):
-    if strip(x) != y:
+    if not core.same(strip(x), y):
       op = {kk: vv for kk, vv in case['ops'][k].items() if kk not in ('sig', '_method_ops')}
       return f'op {k} {op}: impl {strip(x)} model {y}'
   return None
